@@ -192,6 +192,12 @@ func (fr *frame) mapRange(m map[value]value) iter {
 		if side := fr.i.px.sideOf(m, false); side != nil {
 			items = append(items, *side...)
 		}
+		if fr.i.px.mapReverse {
+			// the other iteration order (Go leaves the order unspecified): see rt.SetMapOrder
+			for a, b := 0, len(items)-1; a < b; a, b = a+1, b-1 {
+				items[a], items[b] = items[b], items[a]
+			}
+		}
 	}
 	return &symMapIter{items: items}
 }
